@@ -488,7 +488,13 @@ func onePipe(o *opts, r *rng, s *summary, i int, pl *pipeline, distinct map[stri
 		if r.chance(1, 4) {
 			// a command on a proper subset: every other stage's file and artifacts stay untouched
 			st := pl.stages[r.intn(len(pl.stages))]
-			c := Cmd{Kind: []string{"commit", "checkout", "status"}[r.intn(3)], Targets: []string{st.file}}
+			kinds := []string{"checkout", "status"}
+			if lastFullRun {
+				// commits are made only straight after successful runs (the premise of the
+				// consistency clause): a commit of stale outputs would bless them
+				kinds = append(kinds, "commit", "commit")
+			}
+			c := Cmd{Kind: kinds[r.intn(len(kinds))], Targets: []string{st.file}}
 			t, w = p.do(c, sems, want(27, 13), nil, nil)
 			add(t, c.Kind+" of one stage")
 			s.count("targeted:" + c.Kind)
